@@ -102,3 +102,31 @@ Theorem C14_fork_root : forall H zh st evs k x n r1 st1 c1 r2 st2 c2,
   r1 = root_of H n /\ r2 = root_of H n.
 Proof. exact hm_run_root_stable. Qed.
 Print Assumptions C14_fork_root.
+
+(* ---------------- 3. the only shared write (a memo) is invisible to every step ---------------- *)
+(* memo_eq / hm_rel: see Props/C06.v (C06_defs_memo_eq).  A step of one fork returns the same
+   output, rebinds the same handles to the same addresses and allocates the same cells, whatever
+   memos the other forks have filled in meanwhile. *)
+Theorem C14_step_memo_insensitive : forall zh st1 st2 o,
+  hm_rel st1 st2 ->
+  hm_rel (fst (hm_step zh st1 o)) (fst (hm_step zh st2 o)) /\
+  snd (hm_step zh st1 o) = snd (hm_step zh st2 o).
+Proof. exact hm_step_memo_eq. Qed.
+Print Assumptions C14_step_memo_insensitive.
+
+(* a hash request (any fork, any handle) commutes with a step (any fork) *)
+Theorem C14_hash_step_commute : forall H zh st k o,
+  hm_inv zh st ->
+  hm_rel (hm_event H zh (hm_event H zh st (EHash k)) (EStep o))
+         (hm_event H zh (hm_event H zh st (EStep o)) (EHash k)) /\
+  snd (hm_step zh (hm_event H zh st (EHash k)) o) = snd (hm_step zh st o).
+Proof. exact hm_hash_step_commute. Qed.
+Print Assumptions C14_hash_step_commute.
+
+(* whole histories: erasing every hash request changes no step output's state component —
+   same handles, heaps equal up to memos *)
+Theorem C14_run_steps_only : forall H zh evs st1 st2,
+  hm_inv zh st1 -> hm_inv zh st2 -> hm_rel st1 st2 ->
+  hm_rel (hm_run H zh st1 evs) (hm_run H zh st2 (steps_only evs)).
+Proof. exact hm_run_steps_only. Qed.
+Print Assumptions C14_run_steps_only.
